@@ -230,6 +230,9 @@ def may_adjoin(t1, t2):
         return True
     if c1 == "lit" and c2 == "punct":
         return True
+    if c1 in ("id", "kw") and c2 == "lit" and s2[0] in "'\"" and s1 not in ("L", "u", "U", "u8"):
+        # case'a' / return"s": the quote ends the identifier; only the literal prefixes would glue
+        return True
     return False
 
 
